@@ -439,6 +439,24 @@ class Env:
                         return True
         return False
 
+    def resolves_outside(self, uri, caller_dir=None):
+        """True when EVERY reading of the URI (backslashes as separators or not, leading separators kept or
+        stripped, relative to the caller's directory or to the root) leaves every configured root: such a URI
+        "resolves outside" whatever the reading, so the statement demands TemplateLookupException for it."""
+        vs = {uri, uri.replace("\\", "/")}
+        ws = set()
+        for v in vs:
+            ws.update((v, v.lstrip("/"), v.lstrip("/\\")))
+        for R in self.roots:
+            bases = [R]
+            if caller_dir:
+                bases.append(R + "/" + caller_dir)
+            for B in bases:
+                for w in ws:
+                    if _under(posixpath.normpath(B + "/" + w), self.roots):
+                        return False
+        return True
+
     # -- end of shard --------------------------------------------------------
     def final_check(self, case):
         now = self._walk()
@@ -540,6 +558,10 @@ def run_step(env, step, ev):
         if st == "ok":
             _check_template(env, case, what, r)
             lab = "served-inside"
+            if env.resolves_outside(uri):
+                _fail(env, case, "%s returned the template %r although the URI resolves outside every configured "
+                      "directory under every reading (expected TemplateLookupException)" % (what, r.filename[len(env.top):]),
+                      "escape:served-uri-resolving-outside")
         _audit_failure(env, case, what)
         if st == "tle":
             lab = _lookup_label(r)
@@ -597,6 +619,10 @@ def run_step(env, step, ev):
             if "INSIDE" not in r:
                 raise core.HarnessError("caller produced neither inside nor outside content: %r -> %r" % (case, r))
             lab = "served-inside"
+            if env.resolves_outside(uri, cdir):
+                raise Failure(case, "%s: produced %r although the URI resolves outside every configured directory "
+                              "under every reading (expected TemplateLookupException)" % (what, r[:60]),
+                              "escape:served-uri-resolving-outside")
         elif st == "tle":
             lab = _lookup_label(r)
         else:
@@ -680,6 +706,27 @@ def cancel_uris():
                                     yield lead + head + tsp + tail
 
 
+BLANKS = [" ", "\t", "\n", "\r\n", "\x0b", "\xa0", "\u2003"]  # (characters str.strip() removes; the last two non-ASCII)
+
+
+def blank_uris():
+    """climbing URIs with white space before the first / after the last character, and around the first separator:
+    a component that trims the URI must not disagree with a component that does not"""
+    for k in (1, 2, 3, 4):
+        for sp in SEPS:
+            ups = sp.join([".."] * k)
+            for pre in ("", "sub" + sp):
+                for lead in ("", "/", "//", "\\"):
+                    for tail in ("secret.html", "a.html", "outside" + sp + "secret.html", "sub" + sp + "a.html"):
+                        core_ = lead + pre + ups + sp + tail
+                        for ws in BLANKS:
+                            yield ws + core_
+                            yield ws + core_ + ws
+                            yield core_ + ws
+                            if lead:
+                                yield lead + ws + pre + ups + sp + tail
+
+
 def sweep_tails():
     for s in SEGS:
         if s not in ("", "."):
@@ -727,6 +774,8 @@ def _steps_for(task):
         gen = abs_steps(ABS_RELS)
     elif fam == "cancel":
         gen = ({"uri": u} for u in cancel_uris())
+    elif fam == "blank":
+        gen = ({"uri": u} for i, u in enumerate(blank_uris()) if i % arg[1] == arg[0])
     else:
         raise core.HarnessError("unknown family %r" % fam)
     seen = set()
@@ -887,7 +936,7 @@ def _cost(task):
         n = task["arg"][0]
         size = len(SEGS) ** (n - 1 if task["arg"][1] is not None else n) * len(SEPS) ** (n - 1)
         size /= task.get("split", (0, 1))[1]
-    elif task["fam"] in ("climb", "cancel"):
+    elif task["fam"] in ("climb", "cancel", "blank"):
         size = 3000
     else:
         size = 300
@@ -915,6 +964,7 @@ def run(ctx):
             tasks += [dict(cfg=cfg, fam="climb", arg=[i, 8], routes=["direct", "callers"]) for i in range(8)]
             tasks.append(dict(cfg=cfg, fam="abs", routes=["direct", "callers"]))
             tasks.append(dict(cfg=cfg, fam="cancel", routes=["direct", "callers"]))
+            tasks += [dict(cfg=cfg, fam="blank", arg=[i, 4], routes=["direct", "callers"]) for i in range(4)]
     if want("callers"):
         if ctx.quick:
             tasks += _sweep_tasks(QUICK_CFGS[0], 3, ["callers"], split=2)
